@@ -172,6 +172,10 @@ def run(fb, rep, tier):
         rep.broken('C09.3', 'thread entry points not found')
         return
     reach, roots = rr
+    # the options hand-over (waitOptionsSet returning orders the engine thread's option processing before the
+    # protocol thread's next search set-up): decided by the completion-flag typestate shared with C10.7
+    from . import C10
+    C10.completion_flag(fb, rep, 'C09.4')
     rep.extra['thread_roles'] = {k: {'roots': [fb.kname(x) for x in roots[k]], 'reachable_functions': len(v)} for k, v in reach.items()}
     n_rows = 0
     for cls, rows in sorted(TABLE.items()):
